@@ -14,7 +14,9 @@ TiesLang). On the wire model this is:
  * the dynamic tag-based API and the generated accessors are the same functions of the bytes by
    construction (`M.field tag` then the decoder), so they are interchangeable on the same bytes.
 Enums are int32 on the wire (`SVal.enum`), nested messages, lists and structs are covered by C01's
-theorems for arbitrary `Delim` values. float32 is excluded here (see C10.float32_roundtrip / float32_snan_quieted).
+theorems for arbitrary `Delim` values. Floats are bit patterns read with the bit-level IEEE conversions
+(`IEEE.ieee`, laws proved in Lemmas/IEEE.lean); the one float32 pattern class that does not come back
+bit-exactly, signalling NaNs (C10.float32_snan_quieted), is excluded by `SVal.OK`.
 -/
 import SpecVerif.Props.C01
 import SpecVerif.Props.C10
@@ -32,6 +34,8 @@ inductive SVal
   | bin256 (v : Bytes)
   | bytes (v : Bytes)
   | string (v : Bytes)
+  | f32 (bits : Nat)
+  | f64 (bits : Nat)
   deriving DecidableEq, Repr
 
 /-- the value is in the range of its Go type -/
@@ -44,6 +48,8 @@ def SVal.OK : SVal → Prop
   | .bin128 v => v.length = 16
   | .bin256 v => v.length = 32
   | .bytes v | .string v => v.length < 2 ^ 32
+  | .f32 x => x < 2 ^ 32 ∧ ¬ IEEE.isSNaN32 x
+  | .f64 x => x < 2 ^ 64
 
 /-- what the generated writer appends for the field value: spec.EncodeX of the declared kind -/
 def SVal.enc : SVal → Bytes
@@ -57,6 +63,8 @@ def SVal.enc : SVal → Bytes
   | .bin256 v => encBin256 v
   | .bytes v => encBytes v
   | .string v => encString v
+  | .f32 x => encFloat32 x
+  | .f64 x => encFloat64 x
 
 /-- what the generated reader computes from the field's bytes: spec.DecodeX of the declared kind
 (the kind is that of `like`) -/
@@ -72,6 +80,8 @@ def decodeLike (like : SVal) (b : Bytes) : Res SVal :=
   | .bin256 _ => match decodeBin256 b with | .ok (x, _) => .ok (.bin256 x) | .err e n => .err e n | .panic => .panic
   | .bytes _ => match decodeBytes b with | .ok (x, _) => .ok (.bytes x) | .err e n => .err e n | .panic => .panic
   | .string _ => match decodeString b with | .ok (x, _) => .ok (.string x) | .err e n => .err e n | .panic => .panic
+  | .f32 _ => match decodeFloat32 IEEE.ieee b with | .ok (x, _) => .ok (.f32 x) | .err e n => .err e n | .panic => .panic
+  | .f64 _ => match decodeFloat64 IEEE.ieee b with | .ok (x, _) => .ok (.f64 x) | .err e n => .err e n | .panic => .panic
 
 /-- encoder then decoder of the same kind, behind any prefix, for every value of the type -/
 theorem sval_roundtrip (v : SVal) (hv : v.OK) (p : Bytes) : decodeLike v (p ++ v.enc) = .ok v := by
@@ -86,6 +96,8 @@ theorem sval_roundtrip (v : SVal) (hv : v.OK) (p : Bytes) : decodeLike v (p ++ v
   | bin256 x => simp only [decodeLike, SVal.enc, bin256_roundtrip p x hv]
   | bytes x => simp only [decodeLike, SVal.enc, bytes_roundtrip p x hv]
   | string x => simp only [decodeLike, SVal.enc, string_roundtrip p x hv]
+  | f32 x => simp only [decodeLike, SVal.enc, float32_roundtrip_ieee p x hv.1 hv.2]
+  | f64 x => simp only [decodeLike, SVal.enc, float64_roundtrip IEEE.ieee p x hv]
 
 /-- the bytes of a field value are self-delimiting (what the by-tag lookup relies on) -/
 theorem sval_delim (v : SVal) (hv : v.OK) : Delim v.enc := by
@@ -108,6 +120,8 @@ theorem sval_delim (v : SVal) (hv : v.OK) : Delim v.enc := by
   | bin256 x => exact delim_fixed x _ 32 hv (Or.inr (Or.inr (Or.inr (Or.inr ⟨rfl, rfl⟩))))
   | bytes x => exact delim_bytes x hv
   | string x => exact delim_string x hv
+  | f32 x => exact delim_fixed _ _ 4 (by simp) (Or.inl ⟨rfl, rfl⟩)
+  | f64 x => exact delim_fixed _ _ 8 (by simp) (Or.inr (Or.inl ⟨rfl, rfl⟩))
 
 /-- the message the generated writer builds from (tag, value) pairs in call order -/
 def genWrite (fs : List (Nat × SVal)) : Bytes := encMsg (fs.map fun tv => (tv.1, tv.2.enc))
